@@ -76,22 +76,43 @@ def _construction(case):
     from pytestarch import LayeredArchitecture, LayerRule
 
     layers, kinds, str_form, cfg = case["layers"], case["kinds"], case["str_form"], case["cfg"]
+    # head_after = k: the rule's head (LayerRule().based_on(arch).layers_that()) is written once k layers are defined, the
+    # remaining layers are added to the architecture afterwards (rules started in the same top-down block that declares
+    # the layers); scribble: the lists handed to containing_modules are the caller's and are edited afterwards
+    head_after, scribble = case.get("head_after"), case.get("scribble")
     arch = LayeredArchitecture()
     yield
-    for name, ms in layers.items():
+    r = None
+    handed = []
+    for k, (name, ms) in enumerate(layers.items()):
+        if head_after is not None and k == head_after:
+            r = LayerRule().based_on(arch).layers_that()
+            yield
         arch = arch.layer(name)
         yield
         if kinds[name] == "named":
-            arch = arch.containing_modules(ms[0] if len(ms) == 1 and str_form else list(ms))
+            arg = ms[0] if len(ms) == 1 and str_form else list(ms)
+            arch = arch.containing_modules(arg)
+            if isinstance(arg, list):
+                handed.append(arg)
         else:
             arch = arch.have_modules_with_names_matching("^(" + "|".join(re.escape(m) for m in ms) + ")$")
         yield
-    r = LayerRule()
-    yield
-    r = r.based_on(arch)
-    yield
-    r = r.layers_that()
-    yield
+    if scribble:
+        for n_, lst in enumerate(handed):
+            if (scribble + n_) % 3 == 0:
+                lst.clear()
+            elif (scribble + n_) % 3 == 1:
+                lst.append("r.zz_not_listed")
+            else:
+                lst[0] = "r.zz_replaced"
+    if r is None:
+        r = LayerRule()
+        yield
+        r = r.based_on(arch)
+        yield
+        r = r.layers_that()
+        yield
     r = r.are_named(cfg["subject"])
     yield
     r = getattr(r, cfg["verb"])()
@@ -279,6 +300,17 @@ def run_shard(spec, acc):
         cfg = {"verb": verb, "dir": d, "exc": exc, "anything": anything, "subject": subject, "objects": objects}
         case = {"kind": "layer", "mods": mods, "imps": imps, "layers": layers, "kinds": kinds, "cfg": cfg, "str_form": rnd.random() < 0.5}
         one_case(case, acc)
+        if i % 6 == 1:
+            # the same case built the other ways: rule head written before all layers are declared / lists edited afterwards
+            variant = dict(case)
+            if rnd.random() < 0.5:
+                variant["head_after"] = rnd.randint(0, len(layers) - 1)
+                acc.count("layer_rule_heads_written_before_all_layers_were_declared")
+            else:
+                variant["scribble"] = rnd.randint(1, 3)
+                variant["str_form"] = False
+                acc.count("layer_lists_edited_after_the_call")
+            interleaved_cases([variant], None, rnd, acc)
         if i % 10 == 3 and prev_case is not None:
             interleaved_cases([prev_case, case] + ([prev2] if prev2 is not None and rnd.random() < 0.4 else []), None, rnd, acc)
         prev2, prev_case = prev_case, case
@@ -316,6 +348,9 @@ def floors(acc, tier):
         why.append("too few layers with 100+ internal imports")
     if acc.counters["layer_rule_objects_applied_to_two_architectures"] < 20:
         why.append("too few layer rule objects applied to two different architectures")
+    for c in ("layer_rule_heads_written_before_all_layers_were_declared", "layer_lists_edited_after_the_call"):
+        if acc.counters[c] < 100:
+            why.append(f"{c}: only {acc.counters[c]}")
     if acc.counters["layer_rules_built_interleaved"] < 200:
         why.append(f"only {acc.counters['layer_rules_built_interleaved']} layer rules built while others were under construction")
     if acc.counters["c05_judged_nested_layer_lists"] < 200:
